@@ -69,6 +69,12 @@ def _enclosing_lists(ctx, rep, cl):
     need_t = ["\\'", '\\"', "'", '"', "]", "}", ";", ","]
     miss = [x for x in need_h if x not in H] + [x for x in need_t if x not in T]
     rep.ob(cl + ".enclosing-complete", f.name, not miss, "enclosing texts that are kept around a secret: head %s tail %s; missing %s (a missing closing bracket/terminator would be swallowed into the pseudonym)" % (H, T, miss), W(f), key=cl + ".enclosing-complete|_extract_enclosing_text")
+    # a text that ends (starts) with another, shorter enclosing text must be tried first: otherwise the plain quote of \" is taken alone
+    # and the backslash stays inside the value
+    shadow = [(T[i], T[j]) for i in range(len(T)) for j in range(i + 1, len(T)) if T[j] != T[i] and T[j].endswith(T[i])]
+    shadow += [(H[i], H[j]) for i in range(len(H)) for j in range(i + 1, len(H)) if H[j] != H[i] and H[j].startswith(H[i])]
+    rep.ob(cl + ".enclosing-longest-first", f.name, not shadow, "enclosing texts tried before a longer text that contains them at the stripping end: %s (e.g. the escaped quote must be tried before the plain quote)" % shadow, W(f),
+           key=cl + ".enclosing-longest-first|_extract_enclosing_text")
     inp = ("param", f.mparams[0])
     hp, tp = ("param", f.mparams[1]), ("param", f.mparams[2])
     ln = lambda t: ("call", ("builtin", "len"), (t,), ())
